@@ -96,7 +96,9 @@ type FieldDef struct {
 	Req     int    `json:"req,omitempty"`
 	T       *Type  `json:"t"`
 	Default *Value `json:"default,omitempty"` // scalar default literal
-	Annos   []Anno `json:"annos,omitempty"`   // extra annotations, rendered verbatim
+	// DefaultRef: the default is written as this constant of the enum VE (VE.V0 = 0, V1 = 1, V7 = 7, V100 = 100), Default holds its value
+	DefaultRef string `json:"default_ref,omitempty"`
+	Annos      []Anno `json:"annos,omitempty"` // extra annotations, rendered verbatim
 }
 
 type Anno struct {
